@@ -44,15 +44,19 @@ Act(e) ==
     [] e.a = "Started"          -> Started(x[1], x[2], x[3], x[4])
     [] e.a = "CreatingProc"     -> CreatingProc(x[1], x[2], x[3], x[4])
     [] e.a = "Complete"         -> Complete(x[1], x[2], x[3], x[4], x[5], x[6])
-    [] e.a = "CancelReady"      -> CancelReady(x[1])
-    [] e.a = "CancelCreating"   -> CancelCreating(x[1], x[2], x[3])
-    [] e.a = "CancelRunning"    -> CancelRunning(x[1], x[2], x[3])
-    [] e.a = "Orphan"           -> Orphan(x[1], x[2], x[3])
+    [] e.a = "CancelReadySelect"    -> CancelReadySelect(x[1])
+    [] e.a = "CancelReadyCall"      -> CancelReadyCall(x[1])
+    [] e.a = "CancelCreatingSelect" -> CancelCreatingSelect(x[1], x[2])
+    [] e.a = "CancelCreatingCall"   -> CancelCreatingCall(x[1], x[2], x[3])
+    [] e.a = "CancelRunningSelect"  -> CancelRunningSelect(x[1], x[2])
+    [] e.a = "OrphanSelect"         -> OrphanSelect(x[1], x[2])
+    [] e.a = "UnscheduleCall"       -> UnscheduleCall(x[1], x[2], x[3])
     [] e.a = "Activate"         -> Activate(x[1])
     [] e.a = "Deactivate"       -> Deactivate(x[1], x[2])
     [] e.a = "Heartbeat"        -> Heartbeat(x[1], x[2], x[3])
     [] e.a = "AddResources"     -> AddResources(x[1], x[2])
     [] e.a = "NextDay"          -> NextDay
+    [] e.a = "Compact"          -> "billing" \in Features /\ UNCHANGED vars      \* compaction of the sharded billing tables: no total changes
     [] e.a = "CleanStaging"     -> CleanStaging
     [] e.a = "CleanCancellable" -> CleanCancellable
     [] OTHER -> FALSE
